@@ -18,6 +18,7 @@
 use rand::rngs::StdRng;
 use rand::Rng;
 use serde_json::{json, Value};
+use smartcore::api::{Transformer, UnsupervisedEstimator};
 use smartcore::decomposition::pca::{PCAParameters, PCA};
 use smartcore::decomposition::svd::{SVDParameters, SVD};
 use smartcore::linalg::naive::dense_matrix::DenseMatrix;
@@ -54,7 +55,10 @@ struct PcaOut {
 /// `yexp`: the power of two by which the transform of the scaled problem differs from the
 /// transform of the integer problem (0 in correlation mode, the common exponent in covariance
 /// mode).  Outputs are mapped back exactly: P_j = P'_j 2^(cexp_j - yexp), Y = Y' 2^-yexp.
-fn pca_fit(x: &[Vec<i64>], z: &[Vec<i64>], off: &[i64], cexp: &[i32], yexp: i32, k: usize, corr: bool) -> Result<Result<PcaOut, ()>, String> {
+/// `api`: go through `api::UnsupervisedEstimator::fit` / `api::Transformer::transform` (fully
+/// qualified) instead of the inherent methods.
+fn pca_fit(x: &[Vec<i64>], z: &[Vec<i64>], off: &[i64], cexp: &[i32], yexp: i32, k: usize, corr: bool, api: bool) -> Result<Result<PcaOut, ()>, String> {
+    type Dm = DenseMatrix<f64>;
     let scale = |m: &[Vec<i64>]| -> DenseMatrix<f64> {
         let rows: Vec<Vec<f64>> = m
             .iter()
@@ -69,11 +73,14 @@ fn pca_fit(x: &[Vec<i64>], z: &[Vec<i64>], off: &[i64], cexp: &[i32], yexp: i32,
     let pback: Vec<f64> = cexp.iter().map(|&e| (2.0f64).powi(e - yexp)).collect();
     let yback = (2.0f64).powi(-yexp);
     guard(move || {
-        let r = PCA::fit(&xm, PCAParameters::default().with_n_components(k).with_use_correlation_matrix(corr)).and_then(|m| {
-            let y = m.transform(&xm)?;
-            let yz = m.transform(&zm)?;
-            let mut yzs = rows_of(&m.transform(&z1)?);
-            yzs.extend(rows_of(&m.transform(&z2)?));
+        let par = PCAParameters::default().with_n_components(k).with_use_correlation_matrix(corr);
+        let fitted = if api { <PCA<f64, Dm> as UnsupervisedEstimator<Dm, PCAParameters>>::fit(&xm, par) } else { PCA::fit(&xm, par) };
+        let tr = |m: &PCA<f64, Dm>, a: &Dm| if api { <PCA<f64, Dm> as Transformer<Dm>>::transform(m, a) } else { m.transform(a) };
+        let r = fitted.and_then(|m| {
+            let y = tr(&m, &xm)?;
+            let yz = tr(&m, &zm)?;
+            let mut yzs = rows_of(&tr(&m, &z1)?);
+            yzs.extend(rows_of(&tr(&m, &z2)?));
             let sc = |rows: Vec<Vec<f64>>| -> Vec<Vec<f64>> { rows.iter().map(|r| r.iter().map(|v| v * yback).collect()).collect() };
             let p: Vec<Vec<f64>> = rows_of(m.components()).iter().enumerate().map(|(j, r)| r.iter().map(|v| v * pback[j]).collect()).collect();
             Ok(PcaOut { p, y: sc(rows_of(&y)), yz: sc(rows_of(&yz)), yzs: sc(yzs) })
@@ -89,17 +96,21 @@ struct TsvdOut {
     yzs: Vec<Vec<f64>>,
 }
 
-fn tsvd_fit(x: &[Vec<i64>], z: &[Vec<i64>], k: usize) -> Result<Result<TsvdOut, ()>, String> {
+fn tsvd_fit(x: &[Vec<i64>], z: &[Vec<i64>], k: usize, api: bool) -> Result<Result<TsvdOut, ()>, String> {
+    type Dm = DenseMatrix<f64>;
     let xm = dm(x);
     let zm = dm(z);
     let z1 = dm(&z[..z.len() / 2 + 1]);
     let z2 = dm(&z[z.len() / 2 + 1..]);
     guard(move || {
-        let r = SVD::fit(&xm, SVDParameters::default().with_n_components(k)).and_then(|m| {
-            let y = m.transform(&xm)?;
-            let yz = m.transform(&zm)?;
-            let mut yzs = rows_of(&m.transform(&z1)?);
-            yzs.extend(rows_of(&m.transform(&z2)?));
+        let par = SVDParameters::default().with_n_components(k);
+        let fitted = if api { <SVD<f64, Dm> as UnsupervisedEstimator<Dm, SVDParameters>>::fit(&xm, par) } else { SVD::fit(&xm, par) };
+        let tr = |m: &SVD<f64, Dm>, a: &Dm| if api { <SVD<f64, Dm> as Transformer<Dm>>::transform(m, a) } else { m.transform(a) };
+        let r = fitted.and_then(|m| {
+            let y = tr(&m, &xm)?;
+            let yz = tr(&m, &zm)?;
+            let mut yzs = rows_of(&tr(&m, &z1)?);
+            yzs.extend(rows_of(&tr(&m, &z2)?));
             Ok(TsvdOut { c: rows_of(m.components()), y: rows_of(&y), yz: rows_of(&yz), yzs })
         });
         r.map_err(|_| ())
@@ -129,6 +140,16 @@ fn gen_x(rng: &mut StdRng, m: usize, p: usize, fam: &str, small: bool) -> Vec<Ve
                 let b: i64 = rng.gen_range(-1..=1);
                 for i in 0..m {
                     x[i][j] = c + a * t[i] + b * u[i] + rng.gen_range(-1..=1);
+                }
+            }
+        }
+        "tiny" => {
+            // size-ladder data: three-valued, mutually correlated columns around their means
+            let t: Vec<i64> = (0..m).map(|_| rng.gen_range(-1..=1)).collect();
+            for j in 0..p {
+                let c = mean(rng);
+                for i in 0..m {
+                    x[i][j] = c + if j == 0 || rng.gen_bool(0.6) { t[i] } else { rng.gen_range(-1..=1) };
                 }
             }
         }
@@ -218,12 +239,16 @@ fn gen(path: &str) {
     let mut run = 0i64;
     let mut counts = std::collections::BTreeMap::new();
     let mut bump = |k: String| *counts.entry(k).or_insert(0usize) += 1;
-    for d in 0..n_data {
-        let big = thorough && d % 4 == 0;
-        let p: usize = if big { rng.gen_range(3..=8) } else { rng.gen_range(1..=4) };
-        let wide = d % 3 == 0;
-        let m: usize = if wide { rng.gen_range(2..=p.max(2)) } else if big { rng.gen_range(p + 1..=40) } else { rng.gen_range(p + 1..=12) };
-        let fam = FAMS[rng.gen_range(0..FAMS.len())];
+    // size ladder: row counts around internal block sizes, appended to the random data sets
+    let ladder: &[usize] = if thorough { &[63, 64, 65, 127, 128, 129, 255, 256, 257, 511, 512, 513, 1023, 1024, 1025] } else { &[63, 64, 65, 255, 256, 257, 1023, 1024, 1025] };
+    for d in 0..n_data + ladder.len() {
+        let rung = if d >= n_data { Some(ladder[d - n_data]) } else { None };
+        let big = thorough && d % 4 == 0 && rung.is_none();
+        let p: usize = if rung.is_some() { 1 + d % 3 } else if big { rng.gen_range(3..=8) } else { rng.gen_range(1..=4) };
+        let wide = d % 3 == 0 && rung.is_none();
+        let m: usize = if let Some(r) = rung { r } else if wide { rng.gen_range(2..=p.max(2)) } else if big { rng.gen_range(p + 1..=40) } else { rng.gen_range(p + 1..=12) };
+        let fam = if rung.is_some() { "tiny" } else { FAMS[rng.gen_range(0..FAMS.len())] };
+        let api = d % 8 == 4;
         let x = gen_x(&mut rng, m, p, fam, big);
         let z = gen_z(&mut rng, &x);
         // offset family (every other data set, so that it meets both shapes and both modes)
@@ -239,7 +264,7 @@ fn gen(path: &str) {
             vec![0; p]
         };
         let scaled = d % 4 == 2;
-        let famtag = format!("{}{}{}", fam, if wide { "/wide" } else { "" }, if d % 2 == 1 { "/offset" } else if scaled { "/colscale" } else { "" });
+        let famtag = format!("{}{}{}", if let Some(r) = rung { format!("ladder{}", r) } else { fam.to_string() }, if wide { "/wide" } else { "" }, if d % 2 == 1 { "/offset" } else if scaled { "/colscale" } else { "" });
         // ---- PCA, both modes, every k
         for &corr in &[false, true] {
             if corr && has_constant_column(&x) {
@@ -258,14 +283,14 @@ fn gen(path: &str) {
                 let e = [-40, -30, 30][rng.gen_range(0..3)];
                 (vec![e; p], e)
             };
-            let full = pca_fit(&x, &z, &off, &cexp, yexp, p, corr);
+            let full = pca_fit(&x, &z, &off, &cexp, yexp, p, corr, api);
             let yf: Vec<Vec<f64>> = match &full {
                 Ok(Ok(o)) => o.y.clone(),
                 _ => vec![],
             };
             for k in 1..=p {
                 run += 1;
-                let r = pca_fit(&x, &z, &off, &cexp, yexp, k, corr);
+                let r = pca_fit(&x, &z, &off, &cexp, yexp, k, corr, api);
                 let st = status_of(&r);
                 bump(format!("pca-{}", st));
                 let (fin, q) = match &r {
@@ -276,7 +301,7 @@ fn gen(path: &str) {
                     _ => (false, vec![]),
                 };
                 out.emit(json!({"run": run, "ev": "Pca", "fam": famtag, "mode": if corr {"corr"} else {"cov"}, "m": m, "p": p, "k": k,
-                    "X": x, "Z": z, "off": off, "cexp": cexp, "status": st, "fin": fin, "q": q}));
+                    "X": x, "Z": z, "off": off, "cexp": cexp, "entry": if api { "api" } else { "inherent" }, "status": st, "fin": fin, "q": q}));
             }
         }
         // ---- truncated SVD, every k <= p (k = p must be rejected).  No centring here, so the
@@ -290,7 +315,7 @@ fn gen(path: &str) {
         let sv = guard(|| dm(&x).svd().map_err(|_| ()));
         for k in 1..=p {
             run += 1;
-            let r = tsvd_fit(&x, &z, k);
+            let r = tsvd_fit(&x, &z, k, api);
             let st = status_of(&r);
             bump(format!("tsvd-{}{}", st, if k == p { "(k=p)" } else { "" }));
             let (fin, q) = match (&r, &sv) {
@@ -303,7 +328,7 @@ fn gen(path: &str) {
                 _ => (false, vec![]),
             };
             out.emit(json!({"run": run, "ev": "Tsvd", "fam": famtag, "m": m, "p": p, "k": k,
-                "X": x, "Z": z, "off": vec![0i64; p], "cexp": vec![0i32; p], "status": st, "fin": fin, "q": q}));
+                "X": x, "Z": z, "off": vec![0i64; p], "cexp": vec![0i32; p], "entry": if api { "api" } else { "inherent" }, "status": st, "fin": fin, "q": q}));
         }
     }
     let n = out.finish();
@@ -320,14 +345,15 @@ fn replay_file(input: &str, path: &str) {
         let k = e["k"].as_u64().unwrap() as usize;
         let p = x[0].len();
         let off: Vec<i64> = serde_json::from_value(e["off"].clone()).unwrap_or(vec![0; p]);
+        let api = e["entry"] == "api";
         let mut o = e.clone();
         if e["ev"] == "Pca" {
             let corr = e["mode"] == "corr";
             let cexp: Vec<i32> = serde_json::from_value(e["cexp"].clone()).unwrap_or(vec![0; p]);
             let yexp = if corr { 0 } else { cexp[0] };
-            let full = pca_fit(&x, &z, &off, &cexp, yexp, p, corr);
+            let full = pca_fit(&x, &z, &off, &cexp, yexp, p, corr, api);
             let yf: Vec<Vec<f64>> = match &full { Ok(Ok(o)) => o.y.clone(), _ => vec![] };
-            let r = pca_fit(&x, &z, &off, &cexp, yexp, k, corr);
+            let r = pca_fit(&x, &z, &off, &cexp, yexp, k, corr, api);
             o["status"] = json!(status_of(&r));
             match &r {
                 Ok(Ok(f)) => {
@@ -342,7 +368,7 @@ fn replay_file(input: &str, path: &str) {
             }
         } else {
             let sv = guard(|| dm(&x).svd().map_err(|_| ()));
-            let r = tsvd_fit(&x, &z, k);
+            let r = tsvd_fit(&x, &z, k, api);
             o["status"] = json!(status_of(&r));
             match (&r, &sv) {
                 (Ok(Ok(f)), Ok(Ok(svd))) => {
